@@ -6,6 +6,7 @@ import (
 	"fmt"
 	"go/ast"
 	"go/token"
+	"sort"
 	"strings"
 )
 
@@ -97,9 +98,21 @@ func c17ResolveLocals(e ast.Expr, defs map[string]ast.Expr) ast.Expr {
 }
 
 func c17Literal(fd *ast.FuncDecl, typ string) [][2]string {
+	res := c17LiteralWith(fd, typ, nil)
+	// the order in which the fields of a literal are written is irrelevant
+	sort.Slice(res, func(i, j int) bool { return res[i][0] < res[j][0] })
+	return res
+}
+
+// c17LiteralWith: `params` maps parameter names of fd to the (resolved)
+// argument expressions of the call through which fd was reached.
+func c17LiteralWith(fd *ast.FuncDecl, typ string, params map[string]ast.Expr) [][2]string {
 	var res [][2]string
 	found := false
 	defs := c17SingleDefs(fd)
+	for k, v := range params {
+		defs[k] = v
+	}
 	ast.Inspect(fd.Body, func(n ast.Node) bool {
 		if found {
 			return false
@@ -120,8 +133,13 @@ func c17Literal(fd *ast.FuncDecl, typ string) [][2]string {
 		return false
 	})
 	if !found && c17LitDepth < 2 && c17LitFiles != nil {
-		// extracted helper: look into the same-package functions this one calls
-		var callees []*ast.FuncDecl
+		// extracted helper: look into the same-package functions this one calls,
+		// substituting the call's arguments for the helper's parameters
+		type callee struct {
+			fd   *ast.FuncDecl
+			call *ast.CallExpr
+		}
+		var callees []callee
 		ast.Inspect(fd.Body, func(n ast.Node) bool {
 			c, ok := n.(*ast.CallExpr)
 			if !ok {
@@ -137,13 +155,14 @@ func c17Literal(fd *ast.FuncDecl, typ string) [][2]string {
 			for _, file := range c17LitFiles {
 				for _, d := range file.Decls {
 					if g, ok := d.(*ast.FuncDecl); ok && g.Name.Name == name && g.Body != nil && g != fd {
-						callees = append(callees, g)
+						callees = append(callees, callee{g, c})
 					}
 				}
 			}
 			return true
 		})
-		for _, g := range callees {
+		for _, ce := range callees {
+			g := ce.fd
 			has := false
 			ast.Inspect(g.Body, func(n ast.Node) bool {
 				if cl, ok := n.(*ast.CompositeLit); ok && cl.Type != nil && exprString(cl.Type) == typ {
@@ -152,8 +171,20 @@ func c17Literal(fd *ast.FuncDecl, typ string) [][2]string {
 				return !has
 			})
 			if has {
+				pm := map[string]ast.Expr{}
+				i := 0
+				if g.Type.Params != nil {
+					for _, f := range g.Type.Params.List {
+						for _, n := range f.Names {
+							if i < len(ce.call.Args) {
+								pm[n.Name] = c17ResolveLocals(ce.call.Args[i], defs)
+							}
+							i++
+						}
+					}
+				}
 				c17LitDepth++
-				r := c17Literal(g, typ)
+				r := c17LiteralWith(g, typ, pm)
 				c17LitDepth--
 				return r
 			}
